@@ -807,6 +807,15 @@ def comment_coverage_obligations(w):
         if not callers:
             out.append((False, {'fn': b.short}, '%s|coverage|callers' % b.short, 'no caller of %s found' % b.short, b.loc()))
         for (cb, cbi, ct) in callers:
+            # a private single-site helper that builds a list of nodes (`flatten_import_items(part) -> Vec<&SyntaxNode>`) is read as the code it was
+            import inline
+            def _list_helper(f, t_, d_):
+                if f.crate is not w.core or f.def_kind != 'Fn' or f.id == b.id or 'SyntaxNode' not in f.locals[0]['ty']['s'] or not f.locals[0]['ty']['s'].startswith('std::vec::Vec<'):
+                    return False
+                return sum(1 for x in w.fn_bodies(w.core) for _, t2 in x.calls() if resolved_id(t2) == f.id) == 1
+            nb_ = inline.inline_body(w, cb, _list_helper, desugar=False)
+            if nb_.inlined:
+                cb = nb_
             cv = BodyView(w, cb)
             # the children slice of the import node and the sub-slices cut out of it
             slices = {}
